@@ -37,7 +37,9 @@ func init() {
 			"bytes under C with the stored size announced, every TOP their leading part (whole message for 2^31-1 lines). " +
 			"A case is non-trivial when >=1 copy was stored and " +
 			"read back through all four interfaces; distinct by (back end, header present, set of segment kinds, recipients, pre-fill, " +
-			"script shape and kinds of repetition observed).",
+			"script shape and kinds of repetition observed). Streams smallcap-<mem|file>-cap<1|2> run the same read-back under a mailbox " +
+			"message cap of 1 and 2: 2-6 deliveries to one mailbox, after every accepted delivery the newest message through all interfaces " +
+			"and every older message still listed through Store.Source/Size, REST and web UI source against the bytes it was stored with.",
 		Assumptions: []string{
 			"comparison under C(x) = every run of CRs directly before an LF removed (CRLF/LF normalisation; CR CR LF also equals LF)",
 			"inputs in which a bare LF is immediately followed by '.' are generated and counted, but only their interface agreement and sizes decide, not the transmitted-vs-stored comparison",
@@ -95,6 +97,7 @@ func run(c *fw.Ctx) {
 		hc.CloseIdleConnections()
 		we.Close()
 	}
+	runSmallCaps(c) // smallcap.go: mailbox caps 1 and 2, several deliveries to one mailbox (after seeded change C02-13)
 	c.Cases("maxkb", c.N(60, 900), func(i int, r *fw.Rand) { runMaxKB(c, i, r) })
 }
 
